@@ -69,15 +69,23 @@ OutResult(c) ==
               wp == WeightProfile(prof)
               ev == IF c.exact /\ WeightsOK(wp) THEN Evaluate(g.t, wp) ELSE [poisoned |-> TRUE]
               den == g.f * g.scale
+              half == R(g.S * (g.f \div 2))
+              \* own expected payoffs: one = (util + S) / (f scale) ... in units of 1: (util/f + S/2) / scale
+              u1 == IF ev.poisoned THEN Poison ELSE RDiv(RAdd(ev.util, half), R(den))
+              u2 == IF ev.poisoned THEN Poison ELSE RDiv(RSub(half, ev.util), R(den))
+              r1 == IF ev.poisoned THEN Poison ELSE RDiv(ev.r1, R(den))
+              r2 == IF ev.poisoned THEN Poison ELSE RDiv(ev.r2, R(den))
+              tot == IF ev.poisoned THEN Poison ELSE RDiv(ev.total, R(den))
+              \* the exact arithmetic may overflow 32 bits in the last step too: then nothing is claimed
+              allok == ~ev.poisoned /\ ~IsPoison(u1) /\ ~IsPoison(u2) /\ ~IsPoison(r1) /\ ~IsPoison(r2) /\ ~IsPoison(tot)
           IN [names_ok |-> TRUE,
               dist_ok |-> (~c.exact \/ (\A p \in 1..2 : DistOK(c.strat[p]))),
-              evaluated |-> ~ev.poisoned,
-              \* own expected payoffs: one = (util + S) / (f scale) ... in units of 1: (util/f + S/2) / scale
-              u1 |-> IF ev.poisoned THEN Zero ELSE RDiv(RAdd(ev.util, R(g.S * (g.f \div 2))), R(den)),
-              u2 |-> IF ev.poisoned THEN Zero ELSE RDiv(RSub(R(g.S * (g.f \div 2)), ev.util), R(den)),
-              r1 |-> IF ev.poisoned THEN Zero ELSE RDiv(ev.r1, R(den)),
-              r2 |-> IF ev.poisoned THEN Zero ELSE RDiv(ev.r2, R(den)),
-              total |-> IF ev.poisoned THEN Zero ELSE RDiv(ev.total, R(den)),
+              evaluated |-> allok,
+              u1 |-> IF allok THEN u1 ELSE Zero,
+              u2 |-> IF allok THEN u2 ELSE Zero,
+              r1 |-> IF allok THEN r1 ELSE Zero,
+              r2 |-> IF allok THEN r2 ELSE Zero,
+              total |-> IF allok THEN tot ELSE Zero,
               expected |-> Expected(c, g)]
 
 VerdictResult(c) ==
